@@ -316,9 +316,11 @@ class GhostIntList:
         ctx().add_fact(z3.And(t >= self.lo, t <= self.hi))
         return SymInt(t, self.lo, self.hi)
 
-    def havoc(self, tag):
+    def havoc(self, tag, keep_len=False):
+        """arbitrary contents; arbitrary length too unless the loop only overwrites elements (keep_len)"""
         self.version += 1
-        self.n = core.fresh_int("%s.len@%s.%d" % (self.name, tag, self.version), 0, 1 << 32)
+        if not keep_len:
+            self.n = core.fresh_int("%s.len@%s.%d" % (self.name, tag, self.version), 0, 1 << 32)
         self.arr = z3.Array("%s@%s.%d" % (self.name, tag, self.version), z3.BitVecSort(W), z3.BitVecSort(W))
 
     def __pyvc_len__(self):
